@@ -293,6 +293,18 @@ func (s *StateMachine) DeleteValidator(validator *Validator) lib.ErrorI {
 			return err
 		}
 	}
+	// remove any unstaking / paused marker of the validator so no marker outlives the record it refers to
+	// (a dangling marker would make the end-block processing at its height fail: validator does not exist)
+	if validator.UnstakingHeight != 0 {
+		if err := s.Delete(KeyForUnstaking(validator.UnstakingHeight, addr)); err != nil {
+			return err
+		}
+	}
+	if validator.MaxPausedHeight != 0 {
+		if err := s.Delete(KeyForPaused(validator.MaxPausedHeight, addr)); err != nil {
+			return err
+		}
+	}
 	// delete the validator from state
 	return s.Delete(KeyForValidator(addr))
 }
